@@ -17,10 +17,11 @@ shutil.copytree(os.path.join(V, "evidence"), os.path.join(evbak, "evidence"))
 try:
     for p in props:
         o = subprocess.run([os.path.join(V, "check.py"), p], capture_output=True, text=True, cwd=V)
-        lines = [l for l in o.stdout.splitlines() if l.startswith("[") or l.startswith("VIOLATION") or l.startswith("KNOWN")]
-        res[p] = {"exit": o.returncode, "lines": lines[:6]}
+        lines = [l for l in o.stdout.splitlines() if l.startswith("[") or l.startswith("VIOLATION")]
+        lines = lines[:6] + [l for l in o.stdout.splitlines() if l.startswith("KNOWN")][:2]
+        res[p] = {"exit": o.returncode, "lines": lines}
         print(p, "exit", o.returncode)
-        for l in lines[:6]:
+        for l in lines:
             print("   ", l[:400])
 finally:
     subprocess.run(["git", "-C", "/repo", "checkout", "--", "."], check=True)
